@@ -673,7 +673,7 @@ void caseStructured(vrt::Case& c)
   Spec sp;
   sp.A = Dense(n, n);
   Dense& A = sp.A;
-  int f = static_cast<int>((c.index / 12) % 14);
+  int f = static_cast<int>((c.index / 12) % 15);
   LD s = scalePick(c.rng);
   switch (f)
   {
@@ -827,6 +827,23 @@ void caseStructured(vrt::Case& c)
       int how = static_cast<int>(c.rng.below(3));
       A(i, j) = how == 0 ? nextafter(A(i, j), 1e300) : how == 1 ? A(i, j) * 1.001 + 1e-9 * static_cast<double>(s) : -A(i, j) + static_cast<double>(s);
     }
+    break;
+  }
+  case 13: // skew-symmetric and orthogonal: Q.J.Q^T with J = 90-degree rotations; all eigenvalues +-i (and 0 for odd n), zero diagonal
+  {
+    sp.gen = "skew-orthogonal";
+    LMat J(n, n);
+    for (size_t i = 0; i + 1 < n; i += 2) { LD b = c.rng.chance(0.5) ? 1 : -1; J(i, i + 1) = b; J(i + 1, i) = -b; }
+    LMat Q = randomOrthogonal(c.rng, n);
+    LMat M = mul(mul(Q, J), transposeL(Q));
+    bool exact = c.rng.chance(0.7); // exactly skew-symmetric (zero diagonal) or as rounded
+    for (size_t i = 0; i < n; ++i)
+      for (size_t j = i; j < n; ++j)
+      {
+        if (exact) { double v = i == j ? 0.0 : static_cast<double>((M(i, j) - M(j, i)) / 2); A(i, j) = v; A(j, i) = -v; }
+        else { A(i, j) = static_cast<double>(M(i, j)); A(j, i) = static_cast<double>(M(j, i)); }
+      }
+    if (n == 1) A(0, 0) = 0;
     break;
   }
   default: // upper Hessenberg with some exactly zero subdiagonal entries (deflation from the start)
@@ -1121,7 +1138,7 @@ void caseDuality(vrt::Case& c)
 void caseFixed(vrt::Case& c)
 {
   Spec sp;
-  switch (c.index % 12)
+  switch (c.index % 13)
   {
   case 0: // JAMA's regression matrix for the hqr2 non-termination (JAMA 1.0.3)
   {
@@ -1145,6 +1162,19 @@ void caseFixed(vrt::Case& c)
     sp.gen = "fixed-cyclic5-signed"; sp.A = Dense(5, 5); sp.A(0, 1) = 1; sp.A(1, 2) = 1; sp.A(2, 3) = 1; sp.A(3, 4) = 1; sp.A(4, 0) = -1; break;
   case 10: // complex pair above a real eigenvalue, integer entries
     sp.gen = "fixed-pair-and-real"; sp.A = Dense(3, 3); sp.A(0, 0) = 1; sp.A(0, 1) = -2; sp.A(1, 0) = 2; sp.A(1, 1) = 1; sp.A(0, 2) = 3; sp.A(1, 2) = -1; sp.A(2, 2) = 4; sp.A(2, 0) = 1; break;
+  case 11: // exactly skew-symmetric, eigenvalues +-i twice and 0: the QR iteration stagnated on a 1e-29 coupling between two converged 2x2 blocks
+  {
+    static const double w[5][5] = {
+      { 0, 0.40891795326544617, -0.20121601110516879, 0.69763828172752629, 0.1477750667060384 },
+      { -0.40891795326544617, 0, -0.62559915420773382, -0.097444099764396538, -0.65319120919727158 },
+      { 0.20121601110516879, 0.62559915420773382, 0, 0.20675018295606329, -0.2330037139972361 },
+      { -0.69763828172752629, 0.097444099764396538, -0.20675018295606329, 0, 0.59933029534191129 },
+      { -0.1477750667060384, 0.65319120919727158, 0.2330037139972361, -0.59933029534191129, 0 } };
+    sp.gen = "fixed-skew-stagnation";
+    sp.A = Dense(5, 5);
+    for (size_t i = 0; i < 5; ++i) for (size_t j = 0; j < 5; ++j) sp.A(i, j) = w[i][j];
+    break;
+  }
   default: sp.gen = "fixed-1x1"; sp.A = Dense(1, 1); sp.A(0, 0) = -3.5; break;
   }
   vrt::describe(sp.gen, "A=" + dump(sp.A));
@@ -1155,22 +1185,22 @@ void caseFixed(vrt::Case& c)
 int main(int argc, char** argv)
 {
   vector<vrt::Group> groups = {
-    { "fixed", 12, 12, caseFixed, 300, true },
-    { "dense", 7200, 240000, caseDense, 300, false },
-    { "symmetric", 7680, 240000, caseSymmetric, 300, false },
-    { "structured", 13440, 376320, caseStructured, 300, false },
-    { "spectrum", 4800, 120000, caseSpectrum, 300, false },
-    { "functions", 7200, 180000, caseFunctions, 300, false },
-    { "duality", 4000, 100000, caseDuality, 300, false },
+    { "fixed", 13, 13, caseFixed, 300, true },
+    { "dense", 14400, 240000, caseDense, 300, false },
+    { "symmetric", 15360, 240000, caseSymmetric, 300, false },
+    { "structured", 28800, 396000, caseStructured, 300, false },
+    { "spectrum", 9600, 120000, caseSpectrum, 300, false },
+    { "functions", 14400, 180000, caseFunctions, 300, false },
+    { "duality", 8000, 100000, caseDuality, 300, false },
   };
   vrt::Meta meta;
   meta.rule = "One case = one real square matrix, n = 1 + index mod 12, flavour = (index div 12) mod #flavours of its group: dense (uniform, gaussian, integers in [-9,9], sparse integers, "
       "positive, rate matrices; scales 1e-6..1e6), symmetric (uniform, integer, prescribed / repeated spectrum, diagonal, zero / identity / scalar, tridiagonal, graded 1e-6..1e6, Gram), "
       "structured (upper / lower triangular incl. repeated diagonal, companion matrices of polynomials with prescribed real roots or complex pairs, rotation blocks plain / permuted / "
-      "orthogonally rotated incl. pure 90-degree rotations, Jordan blocks plain / rotated, nearly defective triangular (diagonal entries 1e-12..1e-6 apart), signed permutation matrices, nilpotent, symmetric matrices with one entry of one pair changed (by one ulp, 0.1 %, or replaced), graded non-symmetric, 0/1 matrices, Hessenberg with zero "
+      "orthogonally rotated incl. pure 90-degree rotations, Jordan blocks plain / rotated, nearly defective triangular (diagonal entries 1e-12..1e-6 apart), signed permutation matrices, nilpotent, symmetric matrices with one entry of one pair changed (by one ulp, 0.1 %, or replaced), skew-symmetric orthogonal matrices (all eigenvalues +-i), graded non-symmetric, 0/1 matrices, Hessenberg with zero "
       "subdiagonal entries), spectrum (S.B.S^-1 with kappa(S)=1..100 and a simple spectrum with mutual distances >= 0.4/n, real or with complex pairs), functions (exp, pow(A,p) for p in "
       "{0,1,2,3,5,-1,-2,0.5,1/3,1.5,2.5,-0.5} on S.diag(lambda).S^-1 with kappa(S)<=10, symmetric, diagonal, identity, zero matrices, |lambda|<=2), duality (DualityDiagram on r x q data, "
-      "r,q in 1..8, positive weights), fixed (twelve stored matrices). Every matrix is passed as RowMatrix / ColMatrix / LinearMatrix (random). A class key = (flavour, n, symmetric or not, "
+      "r,q in 1..8, positive weights), fixed (thirteen stored matrices). Every matrix is passed as RowMatrix / ColMatrix / LinearMatrix (random). A class key = (flavour, n, symmetric or not, "
       "number of complex pairs returned, storage class): each involves a full decomposition.";
   meta.assumptions = {
     "tolerances: block-column residual |A.v - v.B|_F <= C n eps |A|_F |v|_F with C = 1e4 (non-symmetric) / 1e3 (symmetric); trace within C n eps |A|_F; determinant within 2(prod(|a_i|+C n eps|A|_F) - prod|a_i|); "
